@@ -100,7 +100,7 @@ func checkC01(c *Ctx) {
 				sub.queries = append(sub.queries, q)
 			}
 		}
-		c.ruleVisibility("C01-R1", &sub, 2)
+		c.ruleVisibility("C01-R1", &sub, 1)
 		c.ruleMergeTable("C01-R5", d)
 	}
 	// R2
@@ -134,7 +134,7 @@ func checkC01(c *Ctx) {
 				}
 				if sl, ok := a.Type().Underlying().(*types.Slice); ok {
 					if bt, ok := sl.Elem().Underlying().(*types.Basic); ok && bt.Kind() == types.String {
-						// recipients slice filled from the ByPattern result
+						// recipients derived from the ByPattern result (filled in place or by a helper)
 						ms, isMake := core.Strip(a).(*ssa.MakeSlice)
 						if isMake {
 							for _, b := range w.run.Blocks {
@@ -146,6 +146,8 @@ func checkC01(c *Ctx) {
 									}
 								}
 							}
+						} else if depReaches(a, func(v ssa.Value) bool { return v == bp.Value() }) {
+							gotRecipients = true
 						}
 					}
 				}
@@ -337,7 +339,7 @@ func checkC07(c *Ctx) {
 	}
 	var worker *ssa.Function
 	for _, f := range c.P.ModFuncs() {
-		if len(core.CallsTo(f, dist)) > 0 && (len(core.CallsTo(f, tset)) > 0 || len(core.CallsTo(f, tdel)) > 0) {
+		if len(core.CallsTo(f, dist)) > 0 && c.reaches(f, 3, isAny(tset)) && c.reaches(f, 3, isAny(tdel)) {
 			worker = f
 		}
 	}
@@ -354,7 +356,7 @@ func checkC07(c *Ctx) {
 		if start == nil {
 			ru1.Fail("retain handling in "+c.fname(worker), c.where(worker, worker), "the worker never tests the retain flag before distributing")
 		} else {
-			paths, err := core.EnumPaths(worker, core.PathOpts{Start: start, Stop: func(b *ssa.BasicBlock) bool { return b == start }})
+			paths, err := c.pathsInlined(worker, core.PathOpts{Start: start, Stop: func(b *ssa.BasicBlock) bool { return b == start }}, isAny(tset, tdel), nil)
 			if err != nil {
 				ru1.Undecided("retain handling in "+c.fname(worker), c.where(worker, worker), err.Error())
 			} else {
@@ -399,13 +401,13 @@ func checkC07(c *Ctx) {
 							case cl.Is(tset):
 								sets++
 								lastStore = i
-								if !isPublishPtr(cl.Arg(0).Type()) || core.Strip(cl.Arg(0)) != core.Strip(d.Common.Args[2]) {
+								if !isPublishPtr(cl.Arg(0).Type()) || core.Strip(p.Resolve(core.Strip(cl.Arg(0)))) != core.Strip(d.Common.Args[2]) {
 									rows["provenance"] = "what is retained is not the publish being distributed"
 								}
 							case cl.Is(tdel):
 								dels++
 								lastStore = i
-								if !strings.HasSuffix(core.Term(cl.Arg(0)), ".Topic") {
+								if !strings.HasSuffix(p.Term(cl.Arg(0)), ".Topic") {
 									rows["provenance"] = "the retained topic cleared is not the publish's topic"
 								}
 							case cl.Instr == d.Instr:
@@ -486,6 +488,12 @@ func checkC07(c *Ctx) {
 						if ms, ok := x.(*ssa.MakeSlice); ok {
 							found = ms
 							return true
+						}
+						if cv, ok := x.(*ssa.Call); ok {
+							if _, isSlice := cv.Type().Underlying().(*types.Slice); isSlice && cv.Call.StaticCallee() != nil && cv.Call.StaticCallee().Pkg != nil && c.P.IsModPkg(cv.Call.StaticCallee().Pkg.Pkg) {
+								found = cv
+								return true
+							}
 						}
 						return false
 					})
